@@ -395,6 +395,7 @@ class Emit:
     def __init__(self, prop, col, sp, flags):
         self.prop, self.col, self.sp, self.flags = prop, col, sp, flags
         self.seen = set()
+        self.ctx = {}
 
     def __call__(self, symptom, detail, where=None):
         if symptom not in OWN[self.prop]:
@@ -404,6 +405,7 @@ class Emit:
             return
         self.seen.add(k)
         w = {'enc': detail.get('enc')}
+        w.update(self.ctx)
         w.update(where or {})
         self.col.violation(symptom, self.sp, detail, self.flags, where=w)
 
@@ -422,6 +424,13 @@ def check_case(prop, sp, col, shard, n_hist, depth, seed_parts):
         col.count('skipped_ref_too_large')
         return
     emit = Emit(prop, col, sp, flags)
+    if sp['conn']:
+        try:
+            p0 = Proc(sp, 'COMPLETE')
+            emit.ctx = {'conn_enc': ','.join(sorted({type(d[0].encoder).__name__
+                                                     for d in p0.gp._conn_choice_data_map.values()}))}
+        except Exception:  # noqa
+            pass
     rnd = gen.rng_for('histops', *seed_parts)
     total = 0
     did = False
